@@ -87,6 +87,27 @@ impl<'a> Gen<'a> {
         let all: Vec<u64> = v.ids.iter().cloned().collect();
         let has_bucket = !self.o.named.is_empty();
         let has_proof = !self.o.pnamed.is_empty();
+        // a named bucket with a live proof: try to move it out from under the proof
+        let locked: Vec<u32> = self.o.named.iter().filter(|(_, o)| !self.o.objs[*o].proofs.is_empty()).map(|(b, _)| *b).collect();
+        if !locked.is_empty() && self.rng.chance(1, 5) {
+            let b = *self.rng.pick(&locked);
+            return match self.rng.below(3) {
+                0 => Op::BurnBucket(b),
+                1 => Op::Deposit(b),
+                _ => Op::ReturnToWorktop(b),
+            };
+        }
+        // steer towards bucket-with-proof situations
+        let on_worktop: Vec<usize> = (0..NRES).filter(|r| self.o.worktop[*r].is_some()).collect();
+        if !on_worktop.is_empty() && self.o.named.len() < 2 && self.rng.chance(1, 4) {
+            let r = *self.rng.pick(&on_worktop);
+            let total = self.o.worktop_total(r);
+            return if r == 2 || self.rng.chance(1, 2) { Op::TakeAllFromWorktop(r) } else { Op::TakeFromWorktop(r, self.amount_near(r, total / 2 / UNIT * UNIT, total)) };
+        }
+        let unlocked: Vec<u32> = self.o.named.iter().filter(|(_, o)| self.o.objs[*o].proofs.is_empty() && !self.o.objs[*o].is_empty()).map(|(b, _)| *b).collect();
+        if !unlocked.is_empty() && self.rng.chance(1, 4) {
+            return Op::BucketProofAll(*self.rng.pick(&unlocked));
+        }
         let mut k = self.rng.below(100);
         // redirect choices that need a named proof / bucket when there is none
         if (48..64).contains(&k) && !has_proof {
@@ -198,7 +219,8 @@ fn gen_case(rng: &mut Rng, init_fung: [i128; 2], init_nf: &[u64]) -> Vec<Op> {
         let mut trial = g.o.clone();
         let ok = trial.step(&op).is_ok() && !trial.unknown;
         // keep most predicted failures out of the middle of a run (they end it), but let some in
-        if !ok && !g.rng.chance(1, 4) {
+        let on_locked = matches!(&op, Op::BurnBucket(b) | Op::Deposit(b) | Op::ReturnToWorktop(b) if g.o.named.get(b).map(|o| !g.o.objs[o].proofs.is_empty()).unwrap_or(false));
+        if !ok && !on_locked && !g.rng.chance(1, 4) {
             continue;
         }
         g.ops.push(op.clone());
@@ -322,6 +344,7 @@ fn main() {
     report.floor("tx_success", (args.cases as u64) / 5);
     report.floor("tx_failure", (args.cases as u64) / 10);
     report.floor("proofs_created", args.cases as u64);
+    report.floor("fail_ELocked", (args.cases as u64) / 100);
     cw.write(&args.out, args.shards).unwrap();
     report.write(&args.out).unwrap();
 }
